@@ -7,13 +7,15 @@ import (
 	"context"
 	"encoding/binary"
 	"io"
+	"io/ioutil"
 
 	"github.com/evergreen-ci/birch"
 	"github.com/pkg/errors"
 )
 
-func readDiagnostic(ctx context.Context, f io.Reader, ch chan<- *birch.Document) error {
+func readDiagnostic(ctx context.Context, f io.Reader, ch chan<- *birch.Document) (err error) {
 	defer close(ch)
+	defer recoverDecoding(&err)
 	buf := bufio.NewReader(f)
 	for {
 		doc, err := readBufBSON(buf)
@@ -32,8 +34,17 @@ func readDiagnostic(ctx context.Context, f io.Reader, ch chan<- *birch.Document)
 	}
 }
 
-func readChunks(ctx context.Context, ch <-chan *birch.Document, o chan<- *Chunk) error {
+// recoverDecoding turns a panic raised while traversing input data
+// into an error of the reader.
+func recoverDecoding(err *error) {
+	if p := recover(); p != nil {
+		*err = errors.Errorf("problem decoding ftdc data: %v", p)
+	}
+}
+
+func readChunks(ctx context.Context, ch <-chan *birch.Document, o chan<- *Chunk) (err error) {
 	defer close(o)
+	defer recoverDecoding(&err)
 
 	var metadata *birch.Document
 
@@ -58,7 +69,13 @@ func readChunks(ctx context.Context, ch <-chan *birch.Document, o chan<- *Chunk)
 		if zelem == nil {
 			return errors.New("data is not populated")
 		}
-		_, zBytes := zelem.Value().Binary()
+		_, zBytes, ok := zelem.Value().BinaryOK()
+		if !ok {
+			return errors.New("data is not a binary value")
+		}
+		if len(zBytes) < 4 {
+			return errors.New("data is too short to hold a metrics chunk")
+		}
 
 		// the metrics chunk, after the first 4 bytes, is zlib
 		// compressed, so we make a reader for that. data
@@ -124,6 +141,13 @@ func readChunks(ctx context.Context, ch <-chan *birch.Document, o chan<- *Chunk)
 			}
 			metrics[i].Values = undelta(v.startingValue, metrics[i].Values)
 		}
+
+		// consume the rest of the compressed stream so that corruption
+		// after the last delta (or a bad checksum) is reported too.
+		if _, err = io.Copy(ioutil.Discard, buf); err != nil {
+			return errors.Wrap(err, "problem reading compressed metrics")
+		}
+
 		select {
 		case o <- &Chunk{
 			Metrics:   metrics,
@@ -139,14 +163,36 @@ func readChunks(ctx context.Context, ch <-chan *birch.Document, o chan<- *Chunk)
 	return nil
 }
 
+// readBufBSON reads one complete, validated BSON document. It returns
+// io.EOF only if the input ends exactly at a document boundary: a
+// stream that stops anywhere inside a document is an error.
 func readBufBSON(buf *bufio.Reader) (*birch.Document, error) {
-	doc := &birch.Document{}
-
-	if _, err := doc.ReadFrom(buf); err != nil {
+	sizeBuf := make([]byte, 4)
+	if _, err := io.ReadFull(buf, sizeBuf); err != nil {
 		return nil, err
 	}
 
-	return doc, nil
+	size := int32(binary.LittleEndian.Uint32(sizeBuf))
+	if size < 5 {
+		return nil, errors.Errorf("invalid bson document length %d", size)
+	}
+
+	// read incrementally, so that a corrupt length field does not
+	// translate into an allocation of that size.
+	data := bytes.NewBuffer(make([]byte, 0, 512))
+	_, _ = data.Write(sizeBuf)
+	if _, err := io.CopyN(data, buf, int64(size)-4); err != nil {
+		if err == io.EOF {
+			err = io.ErrUnexpectedEOF
+		}
+		return nil, errors.Wrap(err, "bson document is truncated")
+	}
+
+	if err := validateDocument(data.Bytes()); err != nil {
+		return nil, errors.WithStack(err)
+	}
+
+	return birch.ReadDocument(data.Bytes())
 }
 
 func readBufMetrics(buf *bufio.Reader) (*birch.Document, []Metric, error) {
